@@ -107,7 +107,10 @@ def tryInit (H : Bytes → Bytes) (features : List Nat)
     if pre.length < Gen.preHeaderSize then .panic "pre-header slice" else
     let dictSize := fromLe ((pre.drop magicBytes.length).take 8)
     -- `dictionary_size.checked_add(8 + 64)`
-    if dictSize + 72 > usizeMax then .invalid "invalid dictionary size" else
+    -- ... and (F14 repair, `Gen.headerEndChecked`) the header must END within 64 bits as well
+    if dictSize + 72 > usizeMax ∨
+        (Gen.headerEndChecked = true ∧ Gen.preHeaderSize + dictSize + 72 > usizeMax) then
+      .invalid "invalid dictionary size" else
     let restSize := dictSize + 72
     -- (since the F8.k12 repair the local reader no longer allocates `restSize` up front: a size
     --  the file cannot satisfy ends in a reader error)
@@ -135,7 +138,16 @@ def tryInit (H : Bytes → Bytes) (features : List Nat)
         match dict.chunkerParams with
         | none => .invalid "invalid chunker parameters"
         | some params =>
+          -- hash length 1..=64 (F20 repair, `Gen.hashLengthChecked`)
+          if Gen.hashLengthChecked = true ∧
+              (params.chunkHashLength = 0 ∨ params.chunkHashLength > Gen.hashMaxLen) then
+            .invalid "invalid chunk hash length" else
           if dict.rebuildOrder.any (fun i => i ≥ chunks.length) then .invalid "invalid rebuild order" else
+          -- the chunks in rebuild order add up to the declared source size (F18 repair,
+          -- `Gen.sourceSizeSumChecked`; a sum beyond 64 bits differs from any declared total)
+          if Gen.sourceSizeSumChecked = true ∧
+              (dict.rebuildOrder.map fun i => ((chunks[i]?).map (·.sourceSize)).getD 0).sum ≠ dict.sourceTotalSize then
+            .invalid "invalid source size" else
           match dict.chunkCompression with
           | none => .invalid "invalid compression"
           | some cc =>
